@@ -17,7 +17,8 @@ LEVEL_TEXT = ('Generated loop bodies (params / Dense / nested child / counters /
               ' Further streams: remat_scan rng splitting, scan-of-vmap nesting, negative axes, functional form on the'
               ' enclosing module with pre-existing broadcast variables.'
               ' Round e/f: readonly_carry (carried collection immutable at apply), attr_body (scanned / vmapped body with attribute modules in non-alphabetical order).'
-              ' Round g: grandchild_arg (functional lifts with a bound grand-child sub-module as extra argument).')
+              ' Round g: grandchild_arg (functional lifts with a bound grand-child sub-module as extra argument).'
+              ' Round h: multi_method (nn.scan / nn.vmap of a class with a methods= dict of differing per-method settings).')
 LEVEL_NOTE = ('The reference trusts the body module (its layers are C12/C02 matters) and NumPy slicing/stacking; float32 same-program '
               'tolerance. Keys: split streams must give pairwise distinct keys across iterations, unsplit streams one key.')
 TECHNIQUE = 'runtime monitoring: loop/stack reference oracle on generated scan/vmap configurations of the real lifted transforms'
